@@ -26,6 +26,12 @@ CHECKS.update({
     "C13": ("DESIGN 4 C13", "symbolic_expressions_at / _at_offset after every sequence of mapping operations (keys concrete, because SortedDict hashes them) with the interval address, re-addressing and the query range symbolic; union with must/may at section, module and IR scope."),
 })
 
+CHECKS.update({
+    "C03": ("DESIGN 4 C03/C04", "Inductive step per parent/child relation: every pre-state shape of a pool with two IRs, two candidate parents (with every upward connection) and a full-depth moved subtree, crossed with every operation of the relation's alphabet; after the operation get_by_uuid of both IRs must equal the reachable set for every pool UUID. Plus twin IRs with pairwise equal UUIDs (hand-built and loaded twice). Bounded-exhaustive: the solver enumerates the feasible scenarios."),
+    "C04": ("DESIGN 4 C03/C04", "Same runs as C03 judged by the forest oracle (collection membership iff parent attribute, no node twice, derived accessors and aggregate iterators as the forest implies, untouched nodes unchanged, expected owner after a move) plus the argument-aliasing / shared-default family."),
+    "C16": ("DESIGN 4 C16", "Differential refinement against the built-in set, list and dict: every pre-state of a small pool crossed with the complete MutableSet / MutableSequence / MutableMapping interface (return value, contents, exception type, ownership and cache consistency after success or failure), documented deviations applied to the model."),
+})
+
 NOT_APPLICABLE = {
 }
 
